@@ -44,7 +44,7 @@ Proof. intro Hc. exact (frame_head_nolen_w py_cap py_lower py_cap_clean py_cap_t
 
 Theorem c03_frame_nobody c r status hs ws kind chunks hc :
   cfg_clean c ->
-  r_error r = None -> no_handover kind ws -> len1 kind = false -> Forall (not_cl py_lower) hs ->
+  r_error r = None -> len1 kind = false -> Forall (not_cl py_lower) hs ->
   plain_fields py_cap (strs_of hs) ->
   no_body_st status = true ->
   let res := run_task c r (wapp status hs ws kind chunks hc) None in
@@ -54,8 +54,37 @@ Theorem c03_frame_nobody c r status hs ws kind chunks hc :
     /\ (forall h, In h (strs_of hs) -> In (client_field (norm_field py_cap h)) fields)
     /\ In (client_field f_close) fields
     /\ filter (field_is te_name) fields = [] /\ filter (field_is cl_name) fields = []
-    /\ o_close res = true /\ o_next res = false.
-Proof. intro Hc. exact (frame_nobody_w py_cap py_lower py_cap_clean py_cap_te c Hc r status hs ws kind chunks hc). Qed.
+    /\ o_close res = true /\ o_next res = false
+    /\ o_handover res = false /\ o_closes res = (if hc then 1 else 0)%nat.
+Proof. intro Hc. exact (frame_nobody_any py_cap py_lower py_cap_clean py_cap_te c Hc r status hs ws kind chunks hc). Qed.
+
+(* the seekable file wrapper after a 1xx/204/304 status (fix d117733): not handed over,
+   iterated -- write() drops every block --, closed by the task *)
+Theorem c03_frame_file_nobody c r status hs chunks :
+  cfg_clean c ->
+  r_error r = None -> Forall (not_cl py_lower) hs -> plain_fields py_cap (strs_of hs) ->
+  no_body_st status = true ->
+  let res := run_task c r (fapp status hs chunks true) None in
+  o_raw res = None ->
+  exists fields,
+    parse_one (r_head r) (wire (o_writes res)) = Some (mkResponse (sl_of r status) fields FNoBody [], [])
+    /\ (forall h, In h (strs_of hs) -> In (client_field (norm_field py_cap h)) fields)
+    /\ In (client_field f_close) fields
+    /\ filter (field_is te_name) fields = [] /\ filter (field_is cl_name) fields = []
+    /\ o_close res = true /\ o_next res = false
+    /\ o_handover res = false /\ o_closes res = 1%nat.
+Proof.
+  intros Hc He. exact (c03_frame_nobody c r status hs [] (KFile true) chunks true Hc He eq_refl).
+Qed.
+
+(* 304 with a seekable file of 6 bytes, HTTP/1.1 keep-alive request: head only, closed *)
+Example file_nobody_example :
+  let res := run_task sample_cfg sample_req (fapp (lit "304 Not Modified") [] [lit "abcd"; lit "ef"] true) None in
+  o_raw res = None /\ o_handover res = false /\ o_closes res = 1%nat
+  /\ wire (o_writes res)
+     = lit "HTTP/1.1 304 Not Modified" ++ CRLF ++ lit "Connection: close" ++ CRLF
+       ++ lit "Date: Thu, 01 Jan 2026 00:00:00 GMT" ++ CRLF ++ lit "Server: waitress" ++ CRLF ++ CRLF.
+Proof. vm_compute. repeat split; reflexivity. Qed.
 
 Section Declared.
 Variables (c : cfg) (r : req) (status : str) (pre post : list (pyobj * pyobj)) (clname v : str) (cl : Z).
